@@ -36,7 +36,7 @@ func (m msg) String() string { return fmt.Sprintf("c%d:%s(%d)", m.Conn, m.Kind, 
 
 var startKinds = []string{"start", "start", "start", "start-method1", "start-method-unknown", "start-with-flags"}
 var verifyKinds = []string{"verify-right", "verify-right", "verify-right", "verify-wrong-code", "verify-random-proof", "verify-A-zero", "verify-A-N", "verify-A-2N", "verify-A-empty", "verify-A-absent", "verify-no-proof"}
-var exchangeKinds = []string{"exchange-genuine", "exchange-genuine", "exchange-zero-key", "exchange-zero-key", "exchange-guessable", "exchange-random-key", "exchange-tampered", "exchange-short", "exchange-absent", "exchange-replayed", "exchange-bad-signature", "exchange-name-mismatch"}
+var exchangeKinds = []string{"exchange-genuine", "exchange-genuine", "exchange-second-identity", "exchange-second-identity", "exchange-zero-key", "exchange-zero-key", "exchange-guessable", "exchange-random-key", "exchange-tampered", "exchange-short", "exchange-absent", "exchange-replayed", "exchange-bad-signature", "exchange-name-mismatch"}
 var otherKinds = []string{"unknown-step", "empty-body", "garbage"}
 
 // per-connection harness state
@@ -54,6 +54,7 @@ type world struct {
 	l        *fixture.L2
 	code     string // dashed right code
 	ctrl     *refctl.Controller
+	ctrl2    *refctl.Controller // a second identity the same peer may present
 	conns    []*connState
 	recorded [][]byte // genuine M5 bodies seen so far (for replay)
 	entropy  []byte
@@ -88,6 +89,7 @@ func (w *world) send(m msg) (label string, err error) {
 	var body []byte
 	expectStore := false
 	mustSucceed := false
+	used := w.ctrl
 	switch m.Kind {
 	case "start":
 		body = refctl.SetupM1(0)
@@ -137,16 +139,19 @@ func (w *world) send(m msg) (label string, err error) {
 			}(srp)
 			cs.srp = srp
 		}
-	case "exchange-genuine":
+	case "exchange-genuine", "exchange-second-identity":
+		if m.Kind == "exchange-second-identity" {
+			used = w.ctrl2
+		}
 		if cs.srp != nil && cs.srp.K != nil {
-			body = m5(w.ctrl, cs.srp.K, nil, cs.srp.K)
+			body = m5(used, cs.srp.K, nil, cs.srp.K)
 			if cs.proved {
 				expectStore = true
 				mustSucceed = cs.honest && cs.lastKind == "verify-right"
 			}
 		} else {
 			k := h512([]byte{9, byte(m.Arg)})
-			body = m5(w.ctrl, k, nil, k)
+			body = m5(used, k, nil, k)
 			m.Kind = "exchange-random-key"
 		}
 	case "exchange-zero-key":
@@ -207,7 +212,7 @@ func (w *world) send(m msg) (label string, err error) {
 	case "garbage":
 		body = h512([]byte{byte(m.Arg)})[:1+m.Arg%60]
 	}
-	if m.Kind == "exchange-genuine" && expectStore {
+	if (m.Kind == "exchange-genuine" || m.Kind == "exchange-second-identity") && expectStore {
 		w.recorded = append(w.recorded, body)
 	}
 	label = m.Kind
@@ -268,7 +273,7 @@ func (w *world) send(m msg) (label string, err error) {
 		return label, nil
 	}
 	// genuine exchange on a proved connection: either stored exactly this entity, or rejected with nothing changed
-	key := hex.EncodeToString([]byte(w.ctrl.ID)) + ".entity"
+	key := hex.EncodeToString([]byte(used.ID)) + ".entity"
 	diff := diffFiles(before, after)
 	stored := false
 	if c, ok := after[key]; ok {
@@ -278,7 +283,7 @@ func (w *world) send(m msg) (label string, err error) {
 		}
 		json.Unmarshal([]byte(c), &ent)
 		pk, _ := base64.StdEncoding.DecodeString(ent.PublicKey)
-		stored = ent.Name == w.ctrl.ID && bytes.Equal(pk, w.ctrl.LTPK)
+		stored = ent.Name == used.ID && bytes.Equal(pk, used.LTPK)
 	}
 	accepted := false
 	if !panicked && resp.Status == 200 {
@@ -292,9 +297,9 @@ func (w *world) send(m msg) (label string, err error) {
 		}
 	}
 	if accepted {
-		label = "exchange-genuine:accepted"
+		label = m.Kind + ":accepted"
 		if !stored {
-			return label, fmt.Errorf("genuine key exchange was acknowledged with M6 but the entity (%q, key) is not stored", w.ctrl.ID)
+			return label, fmt.Errorf("genuine key exchange was acknowledged with M6 but the entity (%q, key) is not stored", used.ID)
 		}
 		for name := range after {
 			if name != key && after[name] != before[name] {
@@ -309,7 +314,7 @@ func (w *world) send(m msg) (label string, err error) {
 		cs.proved = false // this exchange is finished
 		return label, nil
 	}
-	label = "exchange-genuine:rejected"
+	label = m.Kind + ":rejected"
 	if diff != "" {
 		return label, fmt.Errorf("genuine key exchange was not acknowledged but the stored pairings changed: %s", diff)
 	}
@@ -357,7 +362,7 @@ func newWorld(code, ctrlID string, seed []byte, nconns int) (*world, error) {
 	if err != nil {
 		return nil, err
 	}
-	w := &world{l: l, code: code, ctrl: refctl.NewController(ctrlID, seed), entropy: seed}
+	w := &world{l: l, code: code, ctrl: refctl.NewController(ctrlID, seed), ctrl2: refctl.NewController("second-"+ctrlID, append([]byte("2"), seed...)), entropy: seed}
 	for i := 0; i < nconns; i++ {
 		w.conns = append(w.conns, &connState{c: l.NewConn(), honest: true})
 	}
@@ -486,6 +491,7 @@ func TestC02Regress(t *testing.T) {
 		{"start, verify with empty A, zero key", []msg{{0, "start", 0}, {0, "verify-A-empty", 0}, {0, "exchange-zero-key", 0}}},
 		{"wrong code then zero key", []msg{{0, "start", 0}, {0, "verify-wrong-code", 0}, {0, "exchange-zero-key", 0}}},
 		{"key exchange without any verify", []msg{{0, "start", 0}, {0, "exchange-zero-key", 0}}},
+		{"a second key exchange (other identity) after the pairing completed", []msg{{0, "start", 0}, {0, "verify-right", 0}, {0, "exchange-genuine", 0}, {0, "exchange-second-identity", 0}}},
 		{"genuine M5 of connection 0 replayed on connection 1 after its own failed verify", []msg{{0, "start", 0}, {0, "verify-right", 0}, {0, "exchange-genuine", 0}, {1, "start", 0}, {1, "verify-A-zero", 0}, {1, "exchange-replayed", 0}}},
 	}
 	for i, c := range cases {
